@@ -115,6 +115,16 @@ CHECKS = {
             "Library phases are allowed 8 eps pi u N (double-precision evaluation of exp(-j pi u n(n+1)/N)); multi-user scenarios only for lengths that are multiples of the number of shifts, as the property states.",
             "enumeration + independent reference sequences/DFT oracle over generated pilot scenarios",
             "DESIGN.md §5 C18"),
+    "C04": ("exploration",
+            "icontract postconditions on every encode() (shape, energy per channel use = mean symbol energy) plus a driver that "
+            "re-uses one object for 1-3 channels (constructor or set_channel_matrix, vector or matrix form) and checks "
+            "decode(H encode(x)) = x for BLAST, MRC, MRT, SVD, GMD (square and rectangular) and Alamouti over channels with "
+            "prescribed singular values (kappa up to 1e4, four singular-value classes) and real/complex/integer data; ZF filter "
+            "times H = I, MMSE filter against an independent solve and its normal equations, monotone convergence of MMSE to ZF along "
+            "noise 1e-1..1e-12, BLAST filter selection, and rejection of wrong shapes.",
+            "Round trips at noise variance 0/None only; tolerance 256 eps n kappa(H) ||x||.",
+            "icontract postconditions + round-trip and defining-equation oracles on condition-controlled channels",
+            "DESIGN.md §5 C04"),
 }
 
 PENDING_REASON = "check not built yet in this session (design in DESIGN.md §5); will be claimed once its monitors run clean on the unchanged tree"
